@@ -5,6 +5,10 @@ from pyvc.api import *
 # `parts` is therefore also declared on Part (same heap map as Batch.parts).  Every read of `.parts` through a Part-typed
 # reference in part_batcher.py / buffer.py is guarded by an isinstance test.
 shape('Part', parts='list[ref:Part]')
+# Batch() increments the class attribute Asset._id_counter.  Naming it in the `modifies` of a loop cut that is reached
+# before the attribute was read fails with "modifies names unknown field Asset._id_counter" (havoc looks the name up in
+# the shape table only): make the name known there (same heap key as class_attr('Asset', '_id_counter', 'int')).
+shape('Asset', **{'Asset._id_counter': 'int'})
 
 # --------------------------------------------------------------------------- state of a batcher
 # Abstract view: pending(self) = leaves(_output) ++ leaves(_in_progress_batch) ++ leaves(_part)   (what will leave, in order)
@@ -36,7 +40,7 @@ invariant('PartBatcher', 'part_lists_are_not_the_devices_own_lists',
 B_INVS = {n: t for n, t, s in SPECS.invariants['PartBatcher']}
 
 # --------------------------------------------------------------------------- unpack one leaf from the front of the input
-contract('PartBatcher._get_part_from_input', props=['C17'], args={}, result='ref:Part', modular=True,
+contract('PartBatcher._get_part_from_input', props=['C17'], args={}, result='ref:Part',
          requires={'has_nonempty_input':
                        'self._part is not None and implies(typed(self._part, "Batch"), len(bparts(self._part)) >= 1)'},
          ensures={
@@ -62,7 +66,7 @@ contract('PartBatcher._get_part_from_input', props=['C17'], args={}, result='ref
 # oldlen = number of parts collected before the call
 OLDLEN = 'old(ite(self._in_progress_batch is None, 0, len(self._in_progress_batch.parts)))'
 RECV = 'ite(self._in_progress_batch is None, cast(self._output, "ref:Batch"), self._in_progress_batch)'   # batch that got the part
-contract('PartBatcher._add_part_to_output', props=['C17'], args={'part': 'ref:Part'}, modular=True,
+contract('PartBatcher._add_part_to_output', props=['C17'], args={'part': 'ref:Part'},
          requires={'initialised': 'self._env is not None and alive(self._env)',
                    'output_slot_free': 'self._output is None',
                    'leaf_exists': 'part is not None and alive(part) and part is not self._in_progress_batch and '
@@ -162,6 +166,9 @@ def _moved(at):
     }
 
 
+# the two part lists written (no list when the input is a single part / nothing is under construction)
+IN_LIST = 'ite(self._part is not None and typed(self._part, "Batch"), bparts(self._part), None)[]'
+WIP_LIST = 'ite(self._in_progress_batch is None, None, self._in_progress_batch.parts)[]'
 ACTIVE = 'old(operational(self) and self._part is not None and self._output is None)'
 EMPTY_IN = 'old(typed(self._part, "Batch") and len(bparts(self._part)) == 0)'
 contract('PartBatcher._try_move_part_to_output', props=['C17'], args={},
@@ -196,4 +203,4 @@ loop('PartBatcher._try_move_part_to_output', 1, 'while self._output == None and 
                              '              implies(typed(self._part, "Batch"), len(bparts(self._part)) >= 1))',
           no_external_calls='trace_len() == at_loop_entry(trace_len())'),
      modifies=['self._part', 'self._output', 'self._in_progress_batch', 'bparts(self._part)[]',
-               'self._in_progress_batch.parts[]', '*.Asset._id_counter', '$trace'])
+               'self._in_progress_batch.parts[]', '$trace'])
